@@ -83,6 +83,14 @@ def same(a, b):
     return type(a) is type(b) and a == b
 
 
+def has_decimal(o):
+    if isinstance(o, dict):
+        return any(has_decimal(v) for v in o.values())
+    if isinstance(o, (list, tuple)):
+        return any(has_decimal(v) for v in o)
+    return isinstance(o, Decimal)
+
+
 def plain(o):
     """Decimal -> int/float so that witnesses survive JSON."""
     if isinstance(o, Decimal):
@@ -287,6 +295,10 @@ def check_paginated(sink, case):
             sink.clause("cursor-is-last-sort")
             if "exception" in out or not same(out["value"], exp):
                 add("cursor-is-last-sort", f"page {k}: cursor {short(out)} but the last hit's sort is {json.dumps(exp)[:120]}", {"page": k, "expected": exp, "outcome": plain(out)})
+            elif has_decimal(out["value"]):
+                # the cursor is decoded with the json module, not with ijson: it is the very value a full parse gives (type included), and what goes
+                # into the next request body as it is
+                add("cursor-is-last-sort", f"page {k}: cursor {out['value']!r} is not the plain JSON value {json.dumps(exp)[:120]} a full parse gives", {"page": k, "expected": exp, "outcome": plain(out)})
         if "parsed" in box:
             parsed = box["parsed"]
             sink.clause("extractor-props")
